@@ -168,8 +168,8 @@ func isErrorType(t types.Type) bool {
 // function that is not listed here fails C07.inventory.
 var inventoryTable = map[string]string{
 	// ---- deliberate fail-stop / halting
-	"(*coreV2/minter.Blockchain).Commit":   "fail-stop: state invariant checker (stateDeliver.Check), events/tree commit errors; os.Exit only after a voted halt (`stopped`), the behaviour the halt vote asks for",
-	"(*coreV2/minter.Blockchain).stop":     "os.Exit after a halt decided by >2/3 of the voting power or an operator signal; the documented behaviour",
+	"(*coreV2/minter.Blockchain).Commit":    "fail-stop: state invariant checker (stateDeliver.Check), events/tree commit errors; os.Exit only after a voted halt (`stopped`), the behaviour the halt vote asks for",
+	"(*coreV2/minter.Blockchain).stop":      "os.Exit after a halt decided by >2/3 of the voting power or an operator signal; the documented behaviour",
 	"(*coreV2/minter.Blockchain).initState": "start-up: cannot open the state database",
 	// ---- partial mutators: discharged call site by call site by C07.precheck / C07.feeswap
 	"(*coreV2/state/swap.PairV2).Mint":                          "precheck: CheckMint",
@@ -190,25 +190,25 @@ var inventoryTable = map[string]string{
 	"(*coreV2/state/coins.Coins).RecreateToken":                 "precheck: symbol exists",
 	"(*coreV2/state/waitlist.WaitList).Delete":                  "precheck: WaitList.Get != nil",
 	"(coreV2/transaction.RemoveLimitOrderData).Run":             "precheck: IsOrderAlreadyUsed (the deliver block re-asserts it)",
-	"(*coreV2/state/candidates.Candidates).setPubKeyID": "id == 0: callers pass maxID+1 (getOrNewID), the id of an existing candidate (ChangePubKey, whose handler is owner-gated: C07.precheck) or a genesis id (import)",
-	"(*coreV2/state/waitlist.WaitList).AddWaitList":     "precheck: the candidate exists (C07.precheck: Exists(pubkey) gate of Unbond/MoveStake)",
-	"helpers.StringToBigInt":                            "callers on crash-reachable paths are restricted to functions that pass literals compiled into the binary (C07.inventory callers rule)",
+	"(*coreV2/state/candidates.Candidates).setPubKeyID":         "id == 0: callers pass maxID+1 (getOrNewID), the id of an existing candidate (ChangePubKey, whose handler is owner-gated: C07.precheck) or a genesis id (import)",
+	"(*coreV2/state/waitlist.WaitList).AddWaitList":             "precheck: the candidate exists (C07.precheck: Exists(pubkey) gate of Unbond/MoveStake)",
+	"helpers.StringToBigInt":                                    "callers on crash-reachable paths are restricted to functions that pass literals compiled into the binary (C07.inventory callers rule)",
 	// ---- enumerations and constants
-	"(coreV2/events.Role).String":         "switch over the four Role constants; Role values are produced only by NewRole / constants",
-	"coreV2/events.NewRole":               "switch over the four role strings the reward code passes as constants",
-	"coreV2/types.getBaseCoin":            "switch over the chain id constant compiled into the node",
+	"(coreV2/events.Role).String":                 "switch over the four Role constants; Role values are produced only by NewRole / constants",
+	"coreV2/events.NewRole":                       "switch over the four role strings the reward code passes as constants",
+	"coreV2/types.getBaseCoin":                    "switch over the chain id constant compiled into the node",
 	"coreV2/state/accounts.CreateMultisigAddress": "rlp encoding of an in-memory struct of an address and a counter (cannot fail)",
-	"coreV2/transaction.rlpHash":          "rlp encoding of an in-memory transaction (cannot fail for decoded values)",
-	"coreV2/check.rlpHash":                "rlp encoding of an in-memory check",
-	"coreV2/transaction.EncodeError":      "json encoding of an in-memory error struct",
+	"coreV2/transaction.rlpHash":                  "rlp encoding of an in-memory transaction (cannot fail for decoded values)",
+	"coreV2/check.rlpHash":                        "rlp encoding of an in-memory check",
+	"coreV2/transaction.EncodeError":              "json encoding of an in-memory error struct",
 	"(*coreV2/transaction.tagPoolChange).string":  "json encoding of an in-memory tag struct",
 	"(*coreV2/transaction.tagPoolsChange).string": "json encoding of an in-memory tag struct",
 	"(*coreV2/state/commission.Price).Encode":     "rlp encoding of an in-memory price table",
 	// ---- reward / price machinery fed by state, not by request bytes
-	"(*coreV2/state/validators.Validators).PayRewardsV3":     "negative remainder assertion over amounts computed from stakes (arithmetic, declined under C19)",
-	"(*coreV2/state/validators.Validators).PayRewardsV4":     "as PayRewardsV3",
-	"(*coreV2/state/validators.Validators).PayRewardsV5Bug":  "as PayRewardsV3",
-	"(*coreV2/state/validators.Validators).PayRewardsV5Fix":  "as PayRewardsV3",
+	"(*coreV2/state/validators.Validators).PayRewardsV3":    "negative remainder assertion over amounts computed from stakes (arithmetic, declined under C19)",
+	"(*coreV2/state/validators.Validators).PayRewardsV4":    "as PayRewardsV3",
+	"(*coreV2/state/validators.Validators).PayRewardsV5Bug": "as PayRewardsV3",
+	"(*coreV2/state/validators.Validators).PayRewardsV5Fix": "as PayRewardsV3",
 	"math.Log":  "domain assertion of the repository's big-float math on the reward price (state-derived, arithmetic declined under C28)",
 	"math.Pow":  "as math.Log",
 	"math.Sqrt": "as math.Log",
